@@ -34,9 +34,32 @@ MANIFEST = dict(
           "declarations, PIs and script/style contents untouched); attrs_sorted / attrs_sorted_deep / canon_perm (insertion order of "
           "attributes irrelevant, plain and pretty); htmlAlts_exclusive (decide +kernel over the alternatives parsed back from the "
           "live entity regex) -> regex_order_irrelevant -> hash_seed_independent (listing order of regex alternatives, of "
-          "cdata_containing_tags and of attributes does not reach the output). Tie: the constructor grid, formatter_for_name grid and "
+          "cdata_containing_tags and of attributes does not reach the output); supplied_object/function/name (every output method = "
+          "resolve the formatter argument by the flavour, then render; KeyError from every method for unregistered names); "
+          "custom_subst_scope_pretty; flavour_rule (_is_xml = nearest explicit known_xml on the way to the root, else the root's is_xml), "
+          "output_calls_leave_no_trace + render_depends_on_current_tree_only (sessions of edits and output calls: an output call returns "
+          "what it returns on the documents produced by the edits alone, flavour taken from the element's current position); builder side "
+          "(code-mirror of handle_starttag's attribute dict incl. on_duplicate_attribute, _replace_cdata_list_attribute_values, "
+          "can_be_empty_element, preserve_whitespace_tags): builder_sets_are_sets / builder_listing_order_irrelevant (empty_element_tags, "
+          "preserve_whitespace_tags, cdata_list_attributes and the sets in it are consulted through membership/lookup only: equivalent "
+          "configurations build the identical tree from every parse), duplicate_free_start_tag, source_attr_order_irrelevant (attribute "
+          "order in start tags, at any depth, never reaches any output method), output_is_function_of_tree_and_configuration (all of it "
+          "together with the regex listing and the formatter's cdata set, for every output method); code-mirror of "
+          "EntitySubstitution._populate_class_variables: populate_exclusive (for EVERY input table in which no long key is a proper prefix "
+          "of another and none starts with '&' the assembled alternatives are mutually exclusive), html5_table_ok (decide +kernel over the "
+          "whole stdlib html5 table), populate_order_irrelevant(_live) (any relisting of the look-ahead classes and of the alternatives "
+          "gives the same substitute_html); Formatter subclasses overriding attributes(): attributes_hook_default / _decides / "
+          "base_attributes_ignore_insertion_order. Every theorem with hypotheses is instantiated on concrete data. Tie: the constructor grid, formatter_for_name grid and "
           "rendering through every entry point on generated trees of both flavours, three-way: real code / direct oracle / Lean model; "
-          "instrumented custom functions; all attribute insertion orders; subprocess runs under >= 8 PYTHONHASHSEED values: whole documents "
+          "instrumented custom functions; all attribute insertion orders; histories (hand-made builder-less elements put into a tree of one "
+          "flavour, read-only operations there, moved into a tree of another flavour, rendered from the element, its descendants, its "
+          "parent and the root with names/None/bare functions: equal to a never-touched twin, to the oracle for the current flavour and to "
+          "the model's walk over the known_xml chain); parses under builder configurations (empty_element_tags / preserve_whitespace_tags / "
+          "multi_valued_attributes / on_duplicate_attribute at several values, start tags with repeated keys and whitespace-separated "
+          "values) against the model's build and an independent reading, then rendered three-way; the mirror of "
+          "_populate_class_variables run on the generated stdlib tables against the live regex particles, CHARACTER_TO_HTML_ENTITY and "
+          "HTML_ENTITY_TO_CHARACTER (all entries); subclasses overriding attributes() (insertion order / reverse sorted / base minus "
+          "data-*) x 3 base classes against the hook model; subprocess runs under >= 8 PYTHONHASHSEED values: whole documents "
           "byte-identical, and every multi-code-point entity key / every first code point of one followed by each second code point and "
           "other combining marks, as text and attribute value under 'html' and 'html5', equal to the independently computed "
           "longest-key substitution for every seed (regex_particles_regular + htmlAlts_exclusive are the matching table obligations)."),
@@ -47,7 +70,11 @@ MANIFEST = dict(
           "model (re.sub over the generated alternatives); substitute_html5 and user functions enter as the finite graph observed on "
           "the strings of the case (what html5 computes is C09's). PreformattedString.output_ready passes the string to the function "
           "'only to trigger side effects' (documented): the call log contains those calls, the output never depends on them. "
-          "Attribute values of cdata-containing tags are substituted (only NavigableStrings are exempt), and only the direct parent's "
+          "The tie between the model-assembled alternatives and the live pattern is by correspondence (compiled driver, all 1481 "
+          "alternatives and both dicts), not by a kernel computation (quadratic in the table). The builder-side model takes string classes "
+          "as given (string_containers is C13's), assumes tag names as html.parser reports them (lower case), and leaves callable "
+          "on_duplicate_attribute handlers and namespace prefixes of parsed tags out. renderHook (attributes() overridden) covers decode, "
+          "not prettify. Attribute values of cdata-containing tags are substituted (only NavigableStrings are exempt), and only the direct parent's "
           "name decides. Charset-substituting meta attribute values are C08's and are not generated here."),
     technique="Lean 4 proof (structural induction over trees, generated tables by decide +kernel) + differential correspondence + direct Python oracle + cross-process determinism runs",
 )
@@ -95,7 +122,8 @@ def E():
 
     def blank(s):
         return ""
-    _E["custom"] = [upper, ident, mark, quotes, blank]
+    # two anonymous functions: same __name__/__qualname__, different behaviour
+    _E["custom"] = [upper, ident, mark, quotes, blank, lambda s: s.lower(), lambda s: s[::-1]]
     return _E
 
 
@@ -110,7 +138,7 @@ def unptok(t):
 # ---------------------------------------------------------------------------------------------------------------------
 # option values and formatter specifications (JSON-able)
 # ---------------------------------------------------------------------------------------------------------------------
-ES_VALUES = [None, "xml", "html", "html5", "c0", "c1", "c2", "c3", "c4"]
+ES_VALUES = [None, "xml", "html", "html5", "c0", "c1", "c2", "c3", "c4", "c5", "c6"]
 VECP_VALUES = ["/", "", " /", None, "//"]
 CDATA_VALUES = [None, [], ["p"], ["b", "script"], ["script", "style", "pre", "div"]]
 EAB_VALUES = [False, True]
@@ -307,7 +335,7 @@ def make_builder(flavour):
 def build_tree(recipe):
     """recipe = {"flavour": html|xml|xhtml, "markup": str | None, "nodes": [...] } -> BeautifulSoup"""
     e = E()
-    b = make_builder(recipe["flavour"])
+    b = builder_for(recipe["builder"]) if recipe.get("builder") else make_builder(recipe["flavour"])
     soup = e["bs4"].BeautifulSoup(recipe.get("markup") or "", builder=b)
 
     def mk(spec, parent):
@@ -579,6 +607,8 @@ def run_entry(n, entry, farg, level=2):
             return n.format_string(n, farg)
     except KeyError:
         return ("EXC", "KeyError")
+    except Exception as ex:  # anything else the code raises is an observable too (never expected)
+        return ("EXC", type(ex).__name__)
     raise ValueError(entry)
 
 
@@ -625,6 +655,9 @@ def model_mode(n, entry, level=2):
     if entry == "contents-level":
         return f"Q{level}", decl, pt
     raise ValueError(entry)
+
+
+GRAPH_FNS = ["html5", "c0", "c1", "c2", "c3", "c4", "c5", "c6"]
 
 
 def graph_tokens(n, es_names):
@@ -783,6 +816,20 @@ def stream_ffn(ctx):
             lines.append(f"c15 ffn {1 if xml else 0} {ft}")
             impl.append("KeyError" if got is None else cfg_tok(got))
             metas.append((desc, fs, ok))
+    # instances of subclasses (attributes() overridden) are Formatter objects too: used as they are, by every element
+    for (code, cname), cls in sorted(hook_classes().items()):
+        obj = cls(entity_substitution=es_value("xml")) if cname != "F" else cls("html", es_value("xml"))
+        for desc, el, xml in flavour_elements():
+            try:
+                got = el.formatter_for_name(obj)
+            except Exception as ex:
+                got = "!" + type(ex).__name__
+            ctx.case(("ffn-subclass", desc, code, cname))
+            ctx.count("ffn:subclass-instance")
+            if got is not obj:
+                report(ctx, "formatter_for_name", "an instance of a Formatter subclass is not used as it is",
+                       case={"op": "ffn-subclass", "element": desc, "hook": code, "class": cname}, expected="the object itself",
+                       observed=got if isinstance(got, str) else type(got).__name__, kf=None)
     rep = Driver().ask(lines)
     for l, a, b, (desc, fs, ok) in zip(lines, impl, rep, metas):
         if a != b:
@@ -871,7 +918,7 @@ def check_render(ctx, batch, recipe, soup, path, fs, entry, stream, level=2):
         return ok
     mfs = fs if entry != "str" else {"how": "name", "name": "minimal"}
     mode, prefix, pt = model_mode(n, entry, level)
-    g = graph_tokens(n, ["html5", "c0", "c1", "c2", "c3", "c4"])
+    g = graph_tokens(n, GRAPH_FNS)
     batch.add(f"c15 run {1 if xml else 0} {fmt_tok(mfs)} {mode} {pt} {len(g)} {' '.join(g)} {tree_tokens(n)}".replace("  ", " "),
               real, prefix, case, ok)
     return ok
@@ -975,7 +1022,10 @@ def stream_call_log(ctx, ntrees):
         tags = [p for n, p in all_nodes(soup) if is_tag(n)]
         path = r.choice(tags)
         n = node_at(soup, path)
-        out = n.decode(formatter=farg)
+        try:
+            out = n.decode(formatter=farg)
+        except Exception as ex:
+            out = "!" + type(ex).__name__
         want_log = []
         want = show(oracle_entry(n, "decode", opts, log=want_log))
         case = {"op": "calllog", "recipe": recipe, "path": list(path), "how": how, "cls": cls, "cdata": cd, "eab": eab}
@@ -1045,9 +1095,9 @@ def stream_subst(ctx):
                             for _ in range(r.randint(1, 8))))
     lines, impl = [], []
     for s in strs:
-        lines += [f"c15 subst x {ptok(s)}", f"c15 subst h {ptok(s)}", f"c15 substrev {ptok(s)}"]
+        lines += [f"c15 subst x {ptok(s)}", f"c15 subst h {ptok(s)}", f"c15 substrev {ptok(s)}", f"c15 substpop {ptok(s)}"]
         h = ES.substitute_html(s)
-        impl += [ptok(ES.substitute_xml(s)), ptok(h), ptok(h)]
+        impl += [ptok(ES.substitute_xml(s)), ptok(h), ptok(h), ptok(h)]
     rep = Driver().ask(lines)
     bad = 0
     for l, a, b in zip(lines, impl, rep):
@@ -1284,6 +1334,588 @@ def stream_entity_seeds(ctx):
                                 f"'html5', {len(seeds)} PYTHONHASHSEED values ({len(texts)} texts)")
 
 
+# ---------------------------------------------------------------------------------------------------------------------
+# histories: hand-made (builder-less) elements rendered in one tree, moved into a tree of the other flavour, rendered again
+# ---------------------------------------------------------------------------------------------------------------------
+TOUCHES = ["str", "decode-fn", "decode-name", "prettify-name", "output_ready", "output_ready-fn", "format_string", "copy",
+           "encode", "decode_contents-fn", "parent-decode", "is_xml"]
+MOVES = ["append", "extract+append", "insert0", "replace_with", "insert_before", "extend"]
+ROOTS = ["htmlsoup", "xmlsoup", "xmltag", "htmltag", "baretag"]   # baretag: Tag(name="root") with no flavour at all
+
+
+def make_root(kind, flags):
+    """-> (root object, container into which things are put); records the explicit flavour of every node made"""
+    e = E()
+    el = e["el"]
+    if kind in ("htmlsoup", "xmlsoup"):
+        soup = e["bs4"].BeautifulSoup("<div><i>ph</i></div>", builder=make_builder("html" if kind == "htmlsoup" else "xhtml"))
+        for n, _ in all_nodes(soup):
+            flags[id(n)] = (kind == "xmlsoup") if is_tag(n) else None
+        return soup, soup.div
+    fl = {"xmltag": True, "htmltag": False, "baretag": None}[kind]
+    root = el.Tag(name="root", is_xml=fl) if fl is not None else el.Tag(name="root")
+    flags[id(root)] = fl
+    ph = el.Tag(name="i")
+    flags[id(ph)] = None
+    root.append(ph)
+    return root, root
+
+
+def make_hand(spec, flags):
+    e = E()
+    el = e["el"]
+    if spec[0] == "S":
+        n = getattr(el, spec[1])(spec[2])
+        flags[id(n)] = None
+        return n
+    _, name, flag, attrs, kids = spec
+    kw = {} if flag is None else {"is_xml": flag}
+    t = el.Tag(name=name, attrs=dict((k, v) for k, v in attrs), **kw)
+    flags[id(t)] = flag
+    for k in kids:
+        t.append(make_hand(k, flags))
+    return t
+
+
+def gen_hand(r, depth=0):
+    name = r.choice(["script", "style", "p", "b", "br", "pre", "div"])
+    attrs = [[k, r.choice(["", "v", "a&b", "x<y", None])] for k in r.sample(["a", "b", "id"], r.choice([0, 1, 2]))]
+    kids = []
+    for _ in range(r.randint(0 if name == "br" else 1, 3)):
+        if depth < 2 and r.random() < 0.3:
+            kids.append(gen_hand(r, depth + 1))
+        else:
+            kids.append(["S", r.choice(["NavigableString", "NavigableString", "NavigableString", "Comment", "CData"]),
+                         r.choice(["if (a < b) c", "x & y", "é<", "1 && 2", " t "])])
+    return ["T", name, r.choice([None, None, None, None, True, False]), attrs, kids]
+
+
+def do_touch(el_, touch):
+    import copy
+    e = E()
+    NS = e["el"].NavigableString
+    strs = [d for d in ([el_] + list(el_.descendants)) if isinstance(d, NS)] if is_tag(el_) else [el_]
+    if touch == "str":
+        str(el_)
+    elif touch == "decode-fn":
+        el_.decode(formatter=e["custom"][0])
+    elif touch == "decode-name":
+        el_.decode(formatter="html")
+    elif touch == "prettify-name":
+        el_.prettify(formatter="minimal")
+    elif touch == "encode":
+        el_.encode(formatter="minimal")
+    elif touch == "decode_contents-fn":
+        el_.decode_contents(formatter=e["custom"][2])
+    elif touch == "output_ready":
+        for s_ in strs:
+            s_.output_ready()
+    elif touch == "output_ready-fn":
+        for s_ in strs:
+            s_.output_ready(e["custom"][0])
+    elif touch == "format_string":
+        for s_ in strs:
+            s_.format_string(s_, "minimal")
+    elif touch == "copy":
+        copy.copy(el_)
+    elif touch == "parent-decode":
+        if el_.parent is not None:
+            el_.parent.decode(formatter="minimal")
+    elif touch == "is_xml":
+        el_._is_xml
+        for s_ in strs:
+            s_._is_xml
+
+
+def do_move(el_, container, move):
+    if move == "append":
+        container.append(el_)
+    elif move == "extract+append":
+        el_.extract()
+        container.append(el_)
+    elif move == "insert0":
+        container.insert(0, el_)
+    elif move == "replace_with":
+        container.contents[0].replace_with(el_)
+    elif move == "insert_before":
+        container.contents[0].insert_before(el_)
+    elif move == "extend":
+        container.extend([el_])
+
+
+def play_history(sc, touched):
+    """-> (final root, the moved element, flags) for a scenario; `touched` = also perform the read-only operations"""
+    flags = {}
+    el_ = make_hand(sc["hand"], flags)
+    root = None
+    for step in sc["steps"]:
+        root, container = make_root(step["root"], flags)
+        do_move(el_, container, step["move"])
+        if touched:
+            for t in step["touches"]:
+                do_touch(el_, t)
+    return root, el_, flags
+
+
+def flavour_of(n, flags):
+    """documented rule, from what the harness recorded at construction (never from known_xml)"""
+    x = n
+    while True:
+        f = flags.get(id(x))
+        if f is not None:
+            return f
+        if x.parent is None:
+            return bool(getattr(x, "is_xml", False)) if type(x).__name__ == "BeautifulSoup" else False
+        x = x.parent
+
+
+def chain_of(n, flags):
+    out, x = [], n
+    while x is not None:
+        f = flags.get(id(x))
+        out.append("N" if f is None else ("1" if f else "0"))
+        root = x
+        x = x.parent
+    return ",".join(out), ("1" if type(root).__name__ == "BeautifulSoup" and root.is_xml else "0")
+
+
+def path_of(n):
+    p = []
+    while n.parent is not None:
+        p.append(next(i for i, k in enumerate(n.parent.contents) if k is n))
+        n = n.parent
+    return list(reversed(p))
+
+
+HIST_FMTS = [{"how": "name", "name": "minimal"}, {"how": "name", "name": "html"}, {"how": "name", "name": "html5"},
+             {"how": "name", "name": None}, {"how": "fn", "es": "c0"}, {"how": "fn", "es": "c2"}, {"how": "fn", "es": "xml"}]
+
+
+def history_observations(root, el_, flags, r):
+    """[(path from root, entry, fmt index)] deterministic in r"""
+    recv = [el_] + ([d for d in el_.descendants] if is_tag(el_) else [])
+    recv += [el_.parent, root]
+    obs = []
+    for n in recv:
+        if n is None:
+            continue
+        entries = ["decode", "prettify", "decode_contents"] if is_tag(n) else ["output_ready", "format_string"]
+        for fi in range(len(HIST_FMTS)):
+            obs.append((path_of(n), r.choice(entries), fi))
+    return obs
+
+
+def gen_scenario(r):
+    a, b = r.sample(ROOTS, 2)
+    steps = [{"root": a, "move": r.choice(MOVES), "touches": r.sample(TOUCHES, r.randint(1, 3))},
+             {"root": b, "move": r.choice(MOVES), "touches": []}]
+    if r.random() < 0.3:
+        steps[1]["touches"] = r.sample(TOUCHES, r.randint(1, 2))
+        steps.append({"root": r.choice(ROOTS), "move": r.choice(MOVES), "touches": []})
+    return {"hand": gen_hand(r), "steps": steps, "obs_seed": r.randrange(10 ** 9)}
+
+
+def check_history(ctx, batch, sc, stream="history"):
+    import random as _random
+    outs = {}
+    for touched in (False, True):
+        root, el_, flags = play_history(sc, touched)
+        obs = history_observations(root, el_, flags, _random.Random(sc["obs_seed"]))
+        res = []
+        for path, entry, fi in obs:
+            n = node_at(root, tuple(path))
+            fs = HIST_FMTS[fi]
+            real = show(run_entry(n, entry, real_formatter_arg(fs)))
+            xml = flavour_of(n, flags)
+            want = show(oracle_entry(n, entry, intended_for(fs, xml)))
+            res.append((path, entry, fi, real, want, xml, n, flags))
+        outs[touched] = res
+    ctx.count("history:scenarios")
+    for k, ((path, entry, fi, real, want, xml, n, flags), (_, _, _, real0, want0, _, _, _)) in enumerate(zip(outs[True], outs[False])):
+        fs = HIST_FMTS[fi]
+        case = {"op": "history", "scenario": sc, "observation": k, "path": path, "entry": entry, "fmt": fs}
+        hand_made = flags.get(id(n)) is None
+        ctx.case(("history", json.dumps(case, sort_keys=True, default=str)) if hand_made else None)
+        ctx.count(f"history:flavour:{'xml' if xml else 'html'}:{'hand' if hand_made else 'built'}")
+        if real != real0:
+            report(ctx, stream, f"output through {entry} depends on output calls made earlier (before the element was moved)", case=case,
+                   expected=real0, observed=real, kf=None)
+        elif real != want:
+            report(ctx, stream, f"output through {entry} does not follow the flavour of the tree the element is in now", case=case,
+                   expected=want, observed=real, kf=None)
+        if entry == "format_string":
+            continue
+        mode, prefix, pt = model_mode(n, entry)
+        ch, ra = chain_of(n, flags)
+        g = graph_tokens(n, GRAPH_FNS)
+        batch.add(f"c15 runat {ch} {ra} {fmt_tok(fs)} {mode} {pt} {len(g)} {' '.join(g)} {tree_tokens(n)}".replace("  ", " "),
+                  real, prefix, case, real == want and real == real0)
+
+
+def stream_history(ctx, batch, n):
+    r = ctx.rng("history")
+    # the documented example first: a hand-made <script> rendered inside an HTML soup, then moved under an XML-flavoured root
+    for touch in TOUCHES:
+        for mv in ("append", "extract+append"):
+            for a, b in (("htmlsoup", "xmltag"), ("xmltag", "htmlsoup"), ("htmlsoup", "xmlsoup"), ("xmlsoup", "baretag")):
+                check_history(ctx, batch, {"hand": ["T", "script", None, [["a", ""]], [["S", "NavigableString", "if (a < b) c"]]],
+                                           "steps": [{"root": a, "move": mv, "touches": [touch]}, {"root": b, "move": "append", "touches": []}],
+                                           "obs_seed": 1})
+    for _ in range(n):
+        check_history(ctx, batch, gen_scenario(r))
+        if len(batch.lines) > 4000:
+            batch.flush()
+    ctx.exhaustive_parts.append(f"histories: every read-only operation ({len(TOUCHES)}) x 2 ways of moving x 4 flavour changes on a hand-made "
+                                "<script>, rendered from the element, its string, its new parent and the root with 7 formatter arguments")
+
+
+# ---------------------------------------------------------------------------------------------------------------------
+# from the parse to the tree: builder configuration (sets/dicts) and the attribute dict of a start tag
+# ---------------------------------------------------------------------------------------------------------------------
+B_TAGS = ["div", "p", "b", "i", "span", "ul", "li", "td", "pre", "a"]
+B_VOID = ["br", "hr", "img"]
+B_KEYS = ["class", "id", "rel", "headers", "a", "b", "data-x", "accesskey"]
+B_VALS = ["", "v", "a b", " a  b\tc\n", "x y", "one", "a b c", "é ☃", None, "  ", "A B"]
+EET_VALUES = [["br", "hr", "img"], ["br"], [], None, ["br", "hr", "img", "p"], "default"]
+PWT_VALUES = [["pre", "textarea"], [], ["pre", "div"], ["p"], "default"]
+CLA_VALUES = [{"*": ["class", "accesskey"], "td": ["headers"], "a": ["rel"]}, {}, {"*": ["class"]}, {"p": ["a", "b"], "div": []},
+              {"*": [], "li": ["id"]}, None, "default"]
+DUP_VALUES = [None, "replace", "ignore"]
+
+
+def gen_raw(r, bcfg, depth=0, budget=None):
+    """a raw tree the tokenizer will report as generated: proper nesting, no adjacent/blank strings, void tags without contents"""
+    eet = bcfg["eet_effective"]
+    out, last_str = [], True
+    for _ in range(r.randint(1, 4)):
+        if budget[0] <= 0:
+            break
+        budget[0] -= 1
+        if not last_str and r.random() < 0.35:
+            out.append(["S", r.choice(["t", "x y", "é", "two words", "z9"])])
+            last_str = True
+            continue
+        name = r.choice(B_TAGS + B_VOID)
+        keys = [r.choice(B_KEYS) for _ in range(r.choice([0, 1, 2, 2, 3, 4]))]   # repeats on purpose
+        attrs = [[k, r.choice(B_VALS)] for k in keys]
+        void = eet is None or name in eet
+        kids = [] if (void or depth >= 3) else gen_raw(r, bcfg, depth + 1, budget)
+        out.append(["T", name, attrs, kids])
+        last_str = False
+    return out
+
+
+def raw_markup(nodes, eet):
+    out = []
+    for n in nodes:
+        if n[0] == "S":
+            out.append(n[1])
+            continue
+        _, name, attrs, kids = n
+        a = "".join(" " + k + ("" if v is None else '="' + v + '"') for k, v in attrs)
+        out.append(f"<{name}{a}>")
+        if not (eet is None or name in eet):
+            out.append(raw_markup(kids, eet) + f"</{name}>")
+    return "".join(out)
+
+
+def raw_tokens(nodes):
+    out = []
+    for n in nodes:
+        if n[0] == "S":
+            out.append(f"S 0 {ptok(n[1])}")
+            continue
+        _, name, attrs, kids = n
+        out.append(f"T {ptok(name)} {len(attrs)}")
+        for k, v in attrs:
+            out.append(f"{ptok(k)} {'N' if v is None else 'v' + ptok(v)}")
+        out.append(str(len(kids)))
+        out.append(raw_tokens(kids))
+    return " ".join(x for x in out if x)
+
+
+def builder_for(bspec):
+    """-> (real builder, effective values as the property reads them)"""
+    e = E()
+    kw = {}
+    if bspec["eet"] != "default":
+        kw["empty_element_tags"] = None if bspec["eet"] is None else set(bspec["eet"])
+    if bspec["pwt"] != "default":
+        kw["preserve_whitespace_tags"] = set(bspec["pwt"])
+    if bspec["cla"] != "default":
+        kw["multi_valued_attributes"] = None if bspec["cla"] is None else {k: set(v) for k, v in bspec["cla"].items()}
+    if bspec["dup"] is not None:
+        kw["on_duplicate_attribute"] = bspec["dup"]
+    return e["HPTB"](**kw)
+
+
+# the defaults of the HTML builder, from the documentation (not read from the live class)
+PROP_HTML_VOID = ["area", "base", "br", "col", "embed", "hr", "img", "input", "keygen", "link", "menuitem", "meta", "param", "source",
+                  "track", "wbr", "basefont", "bgsound", "command", "frame", "image", "isindex", "nextid", "spacer"]
+
+
+def builder_effective(bspec, live):
+    eet = sorted(live.empty_element_tags) if bspec["eet"] == "default" else bspec["eet"]
+    pwt = sorted(live.preserve_whitespace_tags) if bspec["pwt"] == "default" else bspec["pwt"]
+    if bspec["cla"] == "default":
+        cla = {k: sorted(v) for k, v in live.cdata_list_attributes.items()}
+    else:
+        cla = bspec["cla"] or {}
+    return eet, pwt, cla
+
+
+def o_build_tokens(nodes, eet, pwt, cla, dup):
+    """the property's reading, written independently of the model: last value wins unless 'ignore' (at the first position);
+    a missing value is ""; attributes listed for '*' or for the tag are split on whitespace; void = name in the set (or no set)"""
+    out = []
+    for n in nodes:
+        if n[0] == "S":
+            out.append(f"S 0 {ptok(n[1])}")
+            continue
+        _, name, attrs, kids = n
+        d = {}
+        for k, v in attrs:
+            v = "" if v is None else v
+            if k in d and dup == "ignore":
+                continue
+            d[k] = v
+        vals = {}
+        for k, v in d.items():
+            multi = cla and (k in cla.get("*", ()) or k in (cla.get(name) or ()))
+            vals[k] = v.split() if multi else v
+        void = eet is None or name in eet
+        out.append("T %s - %d %d %d" % (ptok(name), 1 if void else 0, 1 if name in pwt else 0, len(vals)))
+        for k, v in vals.items():
+            out.append(f"{ptok(k)} {val_tok(v)}")
+        out.append(str(len(kids)))
+        if kids:
+            out.append(o_build_tokens(kids, eet, pwt, cla, dup))
+    return " ".join(out)
+
+
+def names_tok(l):
+    return ";".join(ptok(x) for x in l) if l else "E"
+
+
+def check_build(ctx, bspec, nodes, lines, impl, metas, stream="build"):
+    e = E()
+    b = builder_for(bspec)
+    eet, pwt, cla = builder_effective(bspec, b)
+    mk = raw_markup(nodes, eet)
+    soup = e["bs4"].BeautifulSoup(mk, builder=b)
+    real = " ".join(tree_tokens(k) for k in soup.contents)
+    want = o_build_tokens(nodes, eet, pwt, cla, bspec["dup"])
+    case = {"op": "build", "builder": bspec, "nodes": nodes}
+    dupes = any(len({k for k, _ in n[2]}) < len(n[2]) for n in _all_raw(nodes))
+    ctx.case(("build", json.dumps(case, sort_keys=True)) if dupes or any(v for v in bspec.values() if v != "default") else None)
+    ctx.count("build:" + ("dupes" if dupes else "nodupes"))
+    ok = real == want
+    if not ok:
+        report(ctx, stream, "the tree built from a parse does not depend on the builder's sets/dicts and the start tag's attributes as documented",
+               case=case | {"markup": mk}, expected=want, observed=real, kf=None)
+    cla_tok = "|".join(f"{ptok(k)}={names_tok(v)}" for k, v in cla.items()) if cla else "E"
+    # one request per top-level node (the reply is one tree)
+    wrapped = ["T", "zz", [], nodes]
+    # the wrapper is not void unless there is no set at all: ask per top-level node instead
+    for n, k in zip(nodes, soup.contents):
+        lines.append(f"c15 build {'N' if eet is None else names_tok(eet)} {names_tok(pwt)} {cla_tok} {'i' if bspec['dup'] == 'ignore' else 'r'} {raw_tokens([n])}")
+        impl.append(tree_tokens(k))
+        metas.append((case, ok))
+    return soup
+
+
+def _all_raw(nodes):
+    for n in nodes:
+        if n[0] == "T":
+            yield n
+            yield from _all_raw(n[3])
+
+
+def stream_build(ctx, batch, n):
+    r = ctx.rng("build")
+    lines, impl, metas = [], [], []
+    specs = [{"eet": "default", "pwt": "default", "cla": "default", "dup": None}]
+    for v in EET_VALUES:
+        specs.append({"eet": v, "pwt": "default", "cla": "default", "dup": None})
+    for v in PWT_VALUES:
+        specs.append({"eet": "default", "pwt": v, "cla": "default", "dup": None})
+    for v in CLA_VALUES:
+        specs.append({"eet": "default", "pwt": "default", "cla": v, "dup": None})
+    for v in DUP_VALUES:
+        specs.append({"eet": "default", "pwt": "default", "cla": "default", "dup": v})
+    for _ in range(n):
+        specs.append({"eet": r.choice(EET_VALUES), "pwt": r.choice(PWT_VALUES), "cla": r.choice(CLA_VALUES), "dup": r.choice(DUP_VALUES)})
+    for bspec in specs:
+        live = builder_for(bspec)
+        eet, _, _ = builder_effective(bspec, live)
+        for _ in range(3):
+            nodes = gen_raw(r, {"eet_effective": eet}, 0, [r.randint(3, 14)])
+            if not nodes or nodes[0][0] == "S":
+                nodes = [["T", "div", [["class", "k  l"], ["id", None], ["class", "m"]], []]] + nodes
+            soup = check_build(ctx, bspec, nodes, lines, impl, metas)
+            # and the built tree through the renderer (three-way), so that the builder's sets reach the output in the comparison
+            fs = random_fmt(r)
+            recipe = {"flavour": "html", "markup": raw_markup(nodes, eet), "nodes": [], "builder": bspec}
+            for entry in ("decode", "prettify"):
+                check_render(ctx, batch, recipe, soup, (), fs, entry, "build-render")
+    rep = Driver().ask(lines)
+    for l, a, b_, (case, ok) in zip(lines, impl, rep, metas):
+        if a != b_:
+            ctx.corr_disagreements += 1
+            if ok:
+                report(ctx, "build-correspondence", "model and implementation disagree (building an element from a start tag)",
+                       case=case | {"line": l[:1500]}, observed=a, model=b_, no_failing_input=True)
+    ctx.count("build:requests", len(lines))
+
+
+def stream_populate(ctx):
+    """the mirror of `_populate_class_variables` (run on the generated stdlib tables) against the live class variables"""
+    import re as _re
+    ES = E()["ES"]
+    rep = Driver().ask(["c15 populate", "c15 c2e", "c15 e2c"])
+    model_alts = {}
+    dup = False
+    for t in rep[0].split(" "):
+        k, la, r_ = t.split("/")
+        dup |= unptok(k) in model_alts
+        model_alts[unptok(k)] = (frozenset(unptok(la)), unptok(r_))
+    live_alts, odd = {}, []
+    pat = ES.CHARACTER_TO_HTML_ENTITY_WITH_AMPERSAND_RE.pattern
+    for part in pat[1:-1].split("|"):
+        m = _re.fullmatch(r"(?s)(.+?)\(\?!\[(.+)\]\)", part)
+        key, la = (m.group(1), m.group(2)) if m else (part, "")
+        if "(?" in key:
+            odd.append(part)
+        ent = ES.CHARACTER_TO_HTML_ENTITY.get(key)
+        live_alts[key] = (frozenset(la), "&%s;" % ent if ent is not None else "&amp;%s;" % key)
+    ctx.case(("populate", "alternatives"))
+    ctx.count("populate:alternatives", len(live_alts))
+    if model_alts != live_alts or dup or odd:
+        diff = sorted(set(model_alts.items()) ^ set(live_alts.items()), key=lambda kv: kv[0])[:6]
+        ctx.corr_disagreements += 1
+        report(ctx, "populate-correspondence", "model and implementation disagree (alternatives of the entity regex)",
+               case={"op": "populate", "what": "alternatives", "irregular_particles": odd[:5]},
+               observed=[(ascii(k), sorted(map(ascii, v[0])), v[1]) for k, v in diff if k in live_alts],
+               model=[(ascii(k), sorted(map(ascii, v[0])), v[1]) for k, v in diff if k in model_alts], no_failing_input=True)
+    for line, live, what in ((rep[1], ES.CHARACTER_TO_HTML_ENTITY, "CHARACTER_TO_HTML_ENTITY"), (rep[2], ES.HTML_ENTITY_TO_CHARACTER, "HTML_ENTITY_TO_CHARACTER")):
+        model = {}
+        for t in line.split(" "):
+            k, v = t.split("/")
+            model[unptok(k)] = unptok(v)
+        ctx.case(("populate", what))
+        ctx.count(f"populate:{what}", len(live))
+        if model != dict(live):
+            ctx.corr_disagreements += 1
+            diff = sorted(set(model.items()) ^ set(live.items()))[:6]
+            report(ctx, "populate-correspondence", f"model and implementation disagree ({what})", case={"op": "populate", "what": what},
+                   observed=[d for d in diff if live.get(d[0]) == d[1]], model=[d for d in diff if model.get(d[0]) == d[1]], no_failing_input=True)
+
+
+# ---------------------------------------------------------------------------------------------------------------------
+# Formatter subclasses that override attributes()
+# ---------------------------------------------------------------------------------------------------------------------
+def hook_classes():
+    e = E()
+    fm = e["fm"]
+    if "hooks" in e:
+        return e["hooks"]
+
+    def unsorted(self, tag):          # the documentation's UnsortedAttributes
+        for k, v in tag.attrs.items():
+            yield k, v
+
+    def revsorted(self, tag):
+        return sorted(tag.attrs.items(), reverse=True)
+
+    def dropdata(self, tag):
+        return [(k, v) for k, v in super(type(self), self).attributes(tag) if not k.startswith("data-")]
+    hooks = {}
+    for code, fn in (("U", unsorted), ("R", revsorted), ("D", dropdata)):
+        for cname, base in (("F", fm.Formatter), ("H", fm.HTMLFormatter), ("X", fm.XMLFormatter)):
+            hooks[(code, cname)] = type(f"Hook{code}{cname}", (base,), {"attributes": fn})
+    e["hooks"] = hooks
+    return hooks
+
+
+def o_hook_attrs(code, tag, eab):
+    """what the subclass's attributes() is written to return, computed independently"""
+    items = list(tag.attrs.items())
+    if code == "U":
+        return items
+    if code == "R":
+        return sorted(items, key=lambda kv: kv[0], reverse=True)
+    return [(k, (None if eab and isinstance(v, str) and v == "" else v)) for k, v in sorted(items, key=lambda kv: kv[0]) if not k.startswith("data-")]
+
+
+class HookOracle(Oracle):
+    def __init__(self, opts, code):
+        super().__init__(opts)
+        self.code = code
+
+    def open_tag(self, t, void):
+        parts = []
+        for k, v in o_hook_attrs(self.code, t, self.o["eab"]):
+            if v is None:
+                parts.append(k)
+                continue
+            if isinstance(v, (list, tuple)):
+                v = " ".join(v)
+            parts.append(k + "=" + o_quote(self.sub(v)))
+        nm = (t.prefix + ":" if t.prefix else "") + t.name
+        return "<" + nm + ("".join(" " + p for p in parts)) + ((self.o["vecp"] or "") if void else "") + ">"
+
+
+def stream_hooks(ctx, n):
+    r = ctx.rng("hooks")
+    hooks = hook_classes()
+    lines, impl, metas = [], [], []
+    for i in range(n):
+        recipe = gen_recipe(r, i)
+        soup = build_tree(recipe)
+        code = r.choice("URD")
+        cname = r.choice("FHX")
+        o = {"es": r.choice(["xml", "html", "c0", "c2", None]), "eab": r.choice(EAB_VALUES), "vecp": r.choice(VECP_VALUES)}
+        if r.random() < 0.4:
+            o["cdata"] = r.choice(CDATA_VALUES)
+        spec = {"cls": {"F": "Fh", "H": "H", "X": "X"}[cname], "opts": o}
+        kw = dict(entity_substitution=es_value(o["es"]), empty_attributes_are_booleans=o["eab"], void_element_close_prefix=o["vecp"])
+        if "cdata" in o:
+            kw["cdata_containing_tags"] = None if o["cdata"] is None else set(o["cdata"])
+        f = hooks[(code, cname)](**kw) if cname != "F" else hooks[(code, cname)](E()["fm"].Formatter.HTML, **kw)
+        tags = [p_ for n_, p_ in all_nodes(soup) if is_tag(n_) and not n_.hidden]
+        if not tags:
+            continue
+        path = r.choice(tags)
+        nd = node_at(soup, path)
+        try:
+            real = nd.decode(formatter=f)
+        except Exception as ex:
+            real = "!" + type(ex).__name__
+        opts = intended(spec)
+        pn = nd.parent.name if nd.parent is not None else None
+        want = HookOracle(opts, code).node(nd, pn)
+        case = {"op": "hook", "recipe": recipe, "path": list(path), "hook": code, "class": cname, "opts": o}
+        multi = any(is_tag(d) and len(d.attrs) > 1 for d, _ in all_nodes(nd))
+        ctx.case(("hook", i) if multi else None)
+        ctx.count(f"hook:{code}{cname}")
+        if real != want:
+            report(ctx, "attributes-hook", "output does not follow the attributes() of the Formatter subclass", case=case, expected=want,
+                   observed=real, kf=None)
+        pt = "N" if nd.parent is None else ptok(nd.parent.name)
+        g = graph_tokens(nd, GRAPH_FNS)
+        lines.append(f"c15 runhook {code} {ctor_fmt_tok(spec)} {pt} {len(g)} {' '.join(g)} {tree_tokens(nd)}".replace("  ", " "))
+        impl.append(ptok(real))
+        metas.append((case, real == want))
+    rep = Driver().ask(lines)
+    for l, a, b_, (case, ok) in zip(lines, impl, rep, metas):
+        if a != b_:
+            ctx.corr_disagreements += 1
+            if ok:
+                report(ctx, "hook-correspondence", "model and implementation disagree (attributes() hook)", case=case | {"line": l[:1500]},
+                       observed=unptok(a), model=unptok(b_) if b_[:1].isdigit() or b_ == "-" else b_, no_failing_input=True)
+    ctx.count("hook:requests", len(lines))
+
+
 def stream_corpus(ctx, batch):
     from .common import CORPUS
     d = CORPUS / "C15"
@@ -1320,9 +1952,13 @@ def run(ctx: Ctx):
     stream_option_grid(ctx, batch)
     stream_render(ctx, batch, ctx.n(600, 5000))
     stream_attr_orders(ctx, batch, ctx.n(120, 800))
+    stream_history(ctx, batch, ctx.n(250, 2500))
+    stream_build(ctx, batch, ctx.n(150, 1500))
+    stream_hooks(ctx, ctx.n(300, 3000))
     batch.flush()
     stream_call_log(ctx, ctx.n(800, 6000))
     stream_subst(ctx)
+    stream_populate(ctx)
     stream_determinism(ctx)
     stream_entity_seeds(ctx)
     if ctx.lean is not None and not ctx.lean.ok:
@@ -1379,6 +2015,64 @@ def replay(path):
         b = build_tree(c["recipe_b"]).decode(formatter=fa)
         print("same attributes inserted in two orders:\n ", ascii(a), "\n ", ascii(b))
         return 0 if a == b else 1
+    if op == "ffn-subclass":
+        els = {d: el for d, el, xml in flavour_elements()}
+        cls = hook_classes()[(c["hook"], c["class"])]
+        obj = cls(entity_substitution=es_value("xml")) if c["class"] != "F" else cls("html", es_value("xml"))
+        try:
+            got = els[c["element"]].formatter_for_name(obj)
+        except Exception as ex:
+            got = "!" + type(ex).__name__
+        print("formatter_for_name(<instance of a subclass of", c["class"], ">) on", c["element"], "->", got if isinstance(got, str) else type(got).__name__,
+              "(the object itself)" if got is obj else "(NOT the object passed in)")
+        return 0 if got is obj else 1
+    if op == "hook":
+        soup = build_tree(c["recipe"])
+        nd = node_at(soup, tuple(c["path"]))
+        o = c["opts"]
+        kw = dict(entity_substitution=es_value(o["es"]), empty_attributes_are_booleans=o["eab"], void_element_close_prefix=o["vecp"])
+        if "cdata" in o:
+            kw["cdata_containing_tags"] = None if o["cdata"] is None else set(o["cdata"])
+        cls = hook_classes()[(c["hook"], c["class"])]
+        f = cls(**kw) if c["class"] != "F" else cls(E()["fm"].Formatter.HTML, **kw)
+        real = nd.decode(formatter=f)
+        spec = {"cls": {"F": "Fh", "H": "H", "X": "X"}[c["class"]], "opts": o}
+        want = HookOracle(intended(spec), c["hook"]).node(nd, nd.parent.name if nd.parent is not None else None)
+        print("subclass of", c["class"], "overriding attributes():", {"U": "items in insertion order", "R": "sorted in reverse", "D": "base answer minus data-*"}[c["hook"]], "options:", o)
+        print("implementation: ", ascii(real))
+        print("property demands:", ascii(want))
+        return 0 if real == want else 1
+    if op == "build":
+        b = builder_for(c["builder"])
+        eet, pwt, cla = builder_effective(c["builder"], b)
+        mk = raw_markup(c["nodes"], eet)
+        soup = E()["bs4"].BeautifulSoup(mk, builder=b)
+        real = " ".join(tree_tokens(k) for k in soup.contents)
+        want = o_build_tokens(c["nodes"], eet, pwt, cla, c["builder"]["dup"])
+        print("builder:", c["builder"], "\nmarkup:", ascii(mk))
+        print("implementation (tree tokens):", real)
+        print("property demands            :", want)
+        return 0 if real == want else 1
+    if op == "history":
+        import random as _random
+        sc = c["scenario"]
+        rows = {}
+        for touched in (False, True):
+            root, el_, flags = play_history(sc, touched)
+            path, entry, fi = history_observations(root, el_, flags, _random.Random(sc["obs_seed"]))[c["observation"]]
+            n = node_at(root, tuple(path))
+            fs = HIST_FMTS[fi]
+            rows[touched] = (show(run_entry(n, entry, real_formatter_arg(fs))), show(oracle_entry(n, entry, intended_for(fs, flavour_of(n, flags)))),
+                             flavour_of(n, flags), root)
+        print("hand-made element:", sc["hand"])
+        print("steps (root kind, how it was moved in, read-only operations performed there):", sc["steps"])
+        print("final tree:", ascii(rows[True][3].decode(formatter=None))[:400])
+        print("receiver path:", c["path"], "entry point:", c["entry"], "formatter:", c["fmt"], "| flavour of the receiver now:",
+              "xml" if rows[True][2] else "html")
+        print("implementation, read-only operations performed :", ascii(rows[True][0]))
+        print("implementation, never rendered before          :", ascii(rows[False][0]))
+        print("property demands (current flavour)             :", ascii(rows[True][1]))
+        return 0 if rows[True][0] == rows[False][0] == rows[True][1] else 1
     if op == "entity-seed":
         import html as pyhtml
         keys = entity_keyset()
